@@ -70,6 +70,11 @@ CHECKS = {
    text="(algebra) 58 boundary amounts (1, every denomination +-1, minimum conversion +-1, powers of ten, 2^64, 2^128) x 5 exchange rates x 4 difficulties x both sides of the reward fork: QiToQuai(QuaiToQi(x)) <= x and conversely, the cubic discount stays within [0, value] for every (value, mean) pair, the denomination split never exceeds the value and loses nothing above the smallest denomination. (pipeline) every single conversion (thorough: every ordered pair) from a 24-member menu (direction x {minimum, 3 000, 200 000 Quai | spend of a 1 Qi / 0.1 Qi output} x slippage {default, 0.3%, 50%} x destination gas {too small to mint everything, ample}) plus pairs of extreme members is injected before a prime block; for every conversion id exactly one outcome is observed; a converted credit is at most what the exchange rate recorded around that prime block implies and at least the 10% floor, minted Qi never exceeds the repriced value, the Quai recipient never gains more than the repriced sum, a reverted conversion carries exactly the original amount and is refunded on the origin ledger.",
    note="Trusts: scaled constants (lock period 3, controller from prime block 1); flat exchange-rate trajectory (rising/falling trajectories are not steered); Qi->Quai conversions below 1 Qi only. Known finding: reverted Qi->Quai conversions are refunded without the denominations below the trim limit.",
    design="2/C20"),
+ "C14": dict(
+   technique="deviation-bounded exhaustive enumeration: baseline objects of 18 types x all <=2 (thorough 3) field deviations through every encode/decode path, with fixpoint, hash-identity and whole-set collision oracles",
+   text="For the three transaction kinds, body header, pre-fork and KawPow work-object headers with AuxPoW, work objects in 17 view/path combinations, pending-ETX bundles and rollups, pending header, termini, receipts, UTXO entries, AuxTemplate, p2p requests/responses and hash lists, a baseline plus every combination of <=2 (3) deviations over per-field menus {absent, zero/empty, typical, maximum width, each location} is pushed through protobuf, RLP, JSON-RPC and generic JSON, every rawdb Write*/Read* pair, p2p envelopes and gossip encodings: encoding is deterministic, decode(encode(x)) has equal content and hash and re-encodes byte-identically, decode(encode(y)) == y for everything a decoder produced, and across the whole enumerated set equal hashes imply equal content (per hash domain).",
+   note="42 known findings in 14 root causes (RLP of Quai transactions with nil work fields, Qi work fields dropped by RLP/JSON, generic MarshalJSON of Header/Termini/WorkObjectHeader, receipt status Locked and dropped fields in consensus/storage RLP, KawPow header hash not covering nonce/mixHash, gencodec nil-slice rejections) are listed in known_findings.json; all protobuf wire/DB paths are clean. Built by a helper agent, reviewed and integrated (reports/C14.md).",
+   design="2/C14"),
 }
 
 NOT_YET = "check not built yet in this session (planned; see DESIGN.md section 2)"
